@@ -50,6 +50,15 @@ def main() -> int:
         return rc
     except AnalysisError as e:
         print(f"ANALYSIS-ERROR property={a.prop} {e}")
+        # violations established before the anchor vanished stand on their own (usually they are why it vanished)
+        try:
+            if any(f.key not in {k["key"] for k in __import__("sa.report", fromlist=["load_known"]).load_known().get("findings", [])
+                                 if k.get("property") == a.prop} for f in check.findings):
+                check.notes.append(f"analysis stopped early: {e}")
+                check.write_files = False if a.no_evidence else check.write_files
+                return check.finish()
+        except NameError:
+            pass
         return 2
     except Exception:
         traceback.print_exc()
